@@ -50,13 +50,14 @@ func main() {
 func run(c *core.Ctx) {
 	maxLen := c.N(7, 9)
 	c.SetExhaustive(true)
-	c.SetRule(fmt.Sprintf("(1) EXHAUSTIVE small scope: every body over {unique ordinary byte, '\\n', '\\r'} of length 0..%d x every composition of the length into read sizes x {EOF after / together with the last read}, served sequentially through the same plugin instances (emulate_mode no; lengths 0..%d again through elasticsearch /_bulk; lengths 0..%d gzip-encoded in several block/member layouts x wire chunkings); "+
-		"(2) seeded bodies with lines around and beyond the 16 KiB read buffer, multi-byte runes, CRLF, empty lines, read plans (1-byte, fixed, random, boundaries at newlines, empty reads), gzip layouts, injected transport errors and truncated gzip streams, a sample over loopback TCP with chunked transfer encoding; "+
+	c.SetRule(fmt.Sprintf("(1) EXHAUSTIVE small scope: every body over {unique ordinary byte, '\\n', '\\r'} of length 0..%d x every composition of the length into read sizes x {EOF after / together with the last read}, served sequentially through the same plugin instances (emulate_mode no, max_event_size unset; lengths 0..%d again with max_event_size 1..5 set; lengths 0..%d again through elasticsearch /_bulk; lengths 0..%d gzip-encoded in several block/member layouts x wire chunkings); "+
+		"(2) seeded bodies (half of them on instances with max_event_size 3..32768 set, with and without cut_off_event_by_limit) with lines around and beyond the 16 KiB read buffer, multi-byte runes, CRLF, empty lines, read plans (1-byte, fixed, random, boundaries at newlines, empty reads), gzip layouts, injected transport errors and truncated gzip streams, a sample over loopback TCP with chunked transfer encoding; "+
 		"(3) 2..32 requests in flight together on one instance under the race detector, every line tagged with request and index. "+
 		"distinct_nontrivial = distinct shapes: per read the pattern of newline / CR / run-of-ordinary-bytes (exhaustive part up to length 7; beyond that per read only newline-at-start / inside / at-end), generator class x encoding x body class (seeded part), round composition x measured interleaving (concurrent part)",
-		maxLen, c.N(5, 7), c.N(4, 6)))
+		maxLen, maxLen-1, c.N(5, 7), c.N(4, 6)))
 	c.Assume("the recording InputPluginController copies the data bytes during In, like pipeline.In does; data is not looked at after In returned")
 	c.Assume("gzip streams are produced by the Go standard library writer; several members decompress to the concatenation of their contents (RFC 1952)")
+	c.Assume("pipeline size settings (max_event_size 0/1..5/8/32/4096/16383..16385/32768, cut_off_event_by_limit on/off) must not change what the http input hands over: size policy is applied behind In (C20)")
 	c.Assume("an incompletely delivered body (transport read error, cut gzip stream) must not be answered with 200; what is handed over for it only has to be a prefix of the body's lines")
 
 	a := &agg{viols: map[string]*viol{}, vseen: map[string]int{}}
@@ -112,7 +113,10 @@ func run(c *core.Ctx) {
 	netN := c.N(320, 3200)
 	core.ParallelFor(seqShards, seqShards, func(i int) {
 		in := seqIn{Seed: c.Seed, Shard: i, Shards: seqShards, MaxLen: maxLen, ESMaxLen: c.N(5, 7), GzMaxLen: c.N(4, 6),
-			Large: large / seqShards, Net: netN / seqShards, AvgEvSize: []int{0, 16, 4096, 1}[i%4]}
+			Large: large / seqShards, Net: netN / seqShards, AvgEvSize: []int{0, 16, 4096, 1}[i%4],
+			LimMaxLen: maxLen - 1,
+			Small:     limits{MaxEventSize: []int{3, 1, 2, 4, 5, 3, 2, 1}[i%8], CutOff: i >= 8},
+			Big:       limits{MaxEventSize: []int{3, 8, 32, 4096, readBufLen - 1, readBufLen, readBufLen + 1, 2 * readBufLen}[(i+3)%8], CutOff: i < 8}}
 		opt := core.ChildOpt{Timeout: 40 * time.Minute, GOMAXPROCS: 2}
 		res := core.RunChild("seq", in, opt)
 		handleRaces(res, in)
@@ -156,7 +160,8 @@ func run(c *core.Ctx) {
 	rounds := c.N(6, 16)
 	ks := []int{2, 3, 4, 8, 16, 32, 8, 5, 24, 12}
 	core.ParallelFor(nConc, 4, func(i int) {
-		in := concIn{Seed: c.Seed, Idx: i, Rounds: rounds, K: ks[i%len(ks)], ES: i%3 == 1, Net: i%5 == 4, AvgEvSize: []int{16, 4096, 0}[i%3]}
+		in := concIn{Seed: c.Seed, Idx: i, Rounds: rounds, K: ks[i%len(ks)], ES: i%3 == 1, Net: i%5 == 4, AvgEvSize: []int{16, 4096, 0}[i%3],
+			Lim: limits{MaxEventSize: []int{0, 64, 0, readBufLen, 8}[i%5], CutOff: i%2 == 1}}
 		opt := core.ChildOpt{Timeout: 20 * time.Minute, GOMAXPROCS: []int{4, 2, 8, 3}[i%4]}
 		res := core.RunChild("conc", in, opt)
 		handleRaces(res, in)
@@ -230,6 +235,10 @@ func run(c *core.Ctx) {
 		need("boundary:inside_line", 100)
 		need("eof_together_with_last_bytes", 100)
 		need("empty_lines", 100)
+		need("cases_with_max_event_size_set", 1000)
+		need("cases_with_max_event_size_and_cut_off_event_by_limit", 100)
+		need("lines_longer_than_max_event_size", 1000)
+		need("long_line_complete_in_carry_over_at_read_boundary(max_event_size)", 100)
 		need("incomplete_body_status_400", 10)
 		need("concurrent_requests_judged", 50)
 		need("conc:lines_longer_than_read_buffer", 5)
